@@ -242,7 +242,8 @@ example : integralSum .trapezoid 4 ex (stretch .trapezoid p2 4 ex ey 30) = 30 :=
 example : integralSum .rectangle 4 ex (stretch .rectangle p2 4 ex ey 30) = 30 := by decide +kernel
 
 /-- the hypotheses of `stretch_same_direction` are satisfiable, and its conclusion is not `0 ≤ 0` -/
-example : 0 < (stretch .trapezoid p2 4 ex ey 30 1 - ey 1) * (stretch .trapezoid p2 4 ex ey 30 2 - ey 2) := by
+example : 0 < (stretch .trapezoid p2 4 ex ey 30 1 - ey 1)
+    * (stretch .trapezoid p2 4 ex ey 30 2 - ey 2) := by
   decide +kernel
 
 /-- the hypothesis of `stretch_idempotent` is satisfiable -/
